@@ -344,7 +344,7 @@ open FP.Model.Eval
 theorem expr_exists_eq_where_exists (env : Env) (p : E) (input : List Val) :
     eval env (.fn "exists" (.argCons p .argNil)) input
       = eval env (.seq (.fn "where" (.argCons p .argNil)) (.fn "exists" .argNil)) input := by
-  simp [eval, apply1, apply0, existsFn]
+  simp [eval, isClockFn, apply1, apply0, existsFn]
   cases whereFn (crit (eval env p)) input <;> simp [mapRes, Res.bind]
 
 /-- `first()` = `[0]` = `take(1)` -/
@@ -352,14 +352,14 @@ theorem expr_first_index_take (env : Env) (input : List Val) :
     eval env (.fn "first" .argNil) input = eval env (.index (.lit (.int 0))) input ∧
     eval env (.fn "first" .argNil) input = eval env (.fn "take" (.argCons (.lit (.int 1)) .argNil)) input := by
   refine ⟨?_, ?_⟩
-  · simp [eval, apply0, indexColl, Res.bind, first_eq_index0]
-  · cases input <;> simp [eval, apply0, apply1, toInt32, Res.bind, takeFn, firstFn]
+  · simp [eval, isClockFn, apply0, indexColl, Res.bind, first_eq_index0]
+  · cases input <;> simp [eval, isClockFn, apply0, apply1, toInt32, Res.bind, takeFn, firstFn]
     intro h; exact List.eq_nil_of_length_eq_zero (by omega)
 
 /-- `tail()` = `skip(1)` -/
 theorem expr_tail_eq_skip1 (env : Env) (input : List Val) :
     eval env (.fn "tail" .argNil) input = eval env (.fn "skip" (.argCons (.lit (.int 1)) .argNil)) input := by
-  cases input <;> simp [eval, apply0, apply1, toInt32, Res.bind, skipFn, tailFn]
+  cases input <;> simp [eval, isClockFn, apply0, apply1, toInt32, Res.bind, skipFn, tailFn]
   intro h; exact List.eq_nil_of_length_eq_zero (by omega)
 
 /-- `take(n)` followed by `skip(n)` partitions the input, for every integer literal n -/
